@@ -1,4 +1,4 @@
-import PhyModel.Proofs.StoreWF_Upd
+import PhyModel.Proofs.StoreWF_Upd2
 /-! C07: `removeDataPointFromNode` and `removeDataPointFromOutliers` preserve the invariant, keep the
 clone names and remove exactly the data point from `_data`. -/
 namespace PhyModel.Store
@@ -7,7 +7,9 @@ open PhyModel PhyModel.Store PhyModel.Store.Store SF AL
 theorem rmDp_spec {dt : Data} {s s' : Store} {dp : Nat} {node : Int}
     (h : s.removeDataPointFromNode dt dp node = some s') (hw : WF s) :
     WF s' ∧ s'.forest.names = s.forest.names ∧ s'.forest.numNodes = s.forest.numNodes ∧
-      s'.data = alSet s.data node ((s.dataOf node).erase dp) ∧ dp ∈ s.dataOf node := by
+      s'.data = alSet s.data node ((s.dataOf node).erase dp) ∧ dp ∈ s.dataOf node ∧
+      (∀ n' ∈ s'.forest.recs, ∃ m ∈ s.forest.recs, n'.name = m.name ∧
+        n'.dps = if m.name = node then m.dps.erase dp else m.dps) := by
   unfold removeDataPointFromNode at h
   simp only [Option.bind_eq_bind, Option.pure_def] at h
   split at h
@@ -19,7 +21,11 @@ theorem rmDp_spec {dt : Data} {s s' : Store} {dp : Nat} {node : Int}
   · rename_i hout
     have hout : node = outKey := by simpa using hout
     simp only [Option.some.injEq] at h; subst h
-    refine ⟨?_, rfl, rfl, rfl, hdp⟩
+    refine ⟨?_, rfl, rfl, rfl, hdp, fun n' hn' => ⟨n', hn', rfl, ?_⟩⟩
+    swap
+    · have : n'.name ≠ node := fun hc => by
+        have := hw.name_nonneg n' hn'; rw [hc, hout] at this; simp [outKey] at this
+      rw [if_neg this]
     rw [wf_iff]
     refine ⟨hw.g, hw.m, ?_⟩
     have := hw.d.mapg_alSet (g := id) (node := node) (v := (dOf s.data node).erase dp)
@@ -58,7 +64,20 @@ theorem rmDp_spec {dt : Data} {s s' : Store} {dp : Nat} {node : Int}
         simp only [hmi, if_false, hne]; exact hw.d.payload_data m hm
     have hnm : s'.forest.recs.map (·.name) = s.forest.recs.map (·.name) :=
       (hs.map_eq (·.name) fun _ _ _ h => h).trans (map_name_of_keep hg)
-    refine ⟨?_, hnm, ?_, ?_, hdp⟩
+    refine ⟨?_, hnm, ?_, ?_, hdp, fun n' hn' => ?_⟩
+    rotate_left 3
+    · have hc' := hc
+      simp only [SF.cores, recs_setRec] at hc'
+      obtain ⟨m, hm, hcm⟩ := mem_of_map_core_eq hc' hn'
+      simp only [core, Prod.mk.injEq] at hcm
+      refine ⟨m, hm, hcm.2.1.trans (hg m hm).1, ?_⟩
+      rw [hcm.2.2]
+      by_cases hmi : m.idx = i
+      · have : m = x.1 := hw.g.eq_of_idx hm hxm (hmi.trans hxi.symm)
+        subst this; simp [hmi, hxn, hd']
+      · have hne : m.name ≠ node := fun hc' =>
+          hmi ((congrArg NodeRec.idx (hw.g.eq_of_name hm hxm (hc'.trans hxn.symm))).trans hxi)
+        simp [hmi, hne]
     · rw [wf_iff, h1, h2, h3]
       exact ⟨(hw.g.mapg hg).same hs, (hw.m.mapg hg).same hs, by simpa [dataOf_eq] using hd.same hs⟩
     · rw [numNodes_eq, numNodes_eq]; simpa using congrArg List.length hnm
@@ -66,7 +85,7 @@ theorem rmDp_spec {dt : Data} {s s' : Store} {dp : Nat} {node : Int}
 
 theorem rmDp_inv {dt : Data} {s s' : Store} {dp : Nat} {node : Int}
     (h : s.removeDataPointFromNode dt dp node = some s') (hs : Inv0 s) : Inv0 s' := by
-  obtain ⟨hw, hn, _, hd, _⟩ := rmDp_spec h hs.1
+  obtain ⟨hw, hn, _, hd, _, _⟩ := rmDp_spec h hs.1
   refine ⟨hw, fun n hn' => ?_⟩
   have : n.name ∈ s.forest.names := hn ▸ mem_names.2 ⟨n, hn', rfl⟩
   obtain ⟨m, hm, hmn⟩ := mem_names.1 this
@@ -76,7 +95,7 @@ theorem rmDp_inv {dt : Data} {s s' : Store} {dp : Nat} {node : Int}
 
 theorem rmDp_dense {dt : Data} {s s' : Store} {dp : Nat} {node : Int}
     (h : s.removeDataPointFromNode dt dp node = some s') (hw : WF s) (hd : Dense s) : Dense s' := by
-  obtain ⟨_, hn, hnum, _, _⟩ := rmDp_spec h hw
+  obtain ⟨_, hn, hnum, _, _, _⟩ := rmDp_spec h hw
   intro n hn'
   have : n.name ∈ s.forest.names := hn ▸ mem_names.2 ⟨n, hn', rfl⟩
   obtain ⟨m, hm, hmn⟩ := mem_names.1 this
@@ -94,7 +113,7 @@ theorem perm_of_erase_entry {data : List (Int × List Nat)} (hk : (keys data).No
 theorem rmDp_data {dt : Data} {s s' : Store} {dp : Nat} {node : Int}
     (h : s.removeDataPointFromNode dt dp node = some s') (hw : WF s) :
     (vals s.data).Perm (dp :: vals s'.data) := by
-  obtain ⟨_, _, _, hd, hdp⟩ := rmDp_spec h hw
+  obtain ⟨_, _, _, hd, hdp, _⟩ := rmDp_spec h hw
   rw [hd]; exact perm_of_erase_entry hw.d.data_keys hdp
 
 /-! ### outliers -/
@@ -135,5 +154,18 @@ theorem rmOut_data {s s' : Store} {dp : Nat} (h : s.removeDataPointFromOutliers 
     (vals s.data).Perm (dp :: vals s'.data) := by
   obtain ⟨_, _, _, hd, hdp⟩ := rmOut_spec h
   rw [hd]; exact perm_of_erase_entry hw.d.data_keys hdp
+
+theorem rmDp_aligned {dt : Data} {s s' : Store} {dp : Nat} {node : Int}
+    (h : s.removeDataPointFromNode dt dp node = some s') (hw : WF s) (ha : Aligned s) : Aligned s' := by
+  obtain ⟨_, _, _, hd, _, hr⟩ := rmDp_spec h hw
+  exact aligned_of_update (f := fun l => l.erase dp) ha hd hr
+
+theorem rmOut_aligned {s s' : Store} {dp : Nat} (h : s.removeDataPointFromOutliers dp = some s')
+    (hw : WF s) (ha : Aligned s) : Aligned s' := by
+  obtain ⟨hf, _, _, hd, _⟩ := rmOut_spec h
+  refine aligned_of_update (f := fun l => l.erase dp) (node := outKey) ha hd fun n' hn' => ⟨n', hf ▸ hn', rfl, ?_⟩
+  have : n'.name ≠ outKey := fun hc => by
+    have := hw.name_nonneg n' (hf ▸ hn'); rw [hc] at this; simp [outKey] at this
+  rw [if_neg this]
 
 end PhyModel.Store
